@@ -38,13 +38,13 @@ impl Builtin {
     }
     pub fn sort_segments(
         memory_segments: BTreeMap<String, MemorySegmentAddress>,
-    ) -> Vec<MemorySegmentAddress> {
+    ) -> Result<Vec<MemorySegmentAddress>, io::Error> {
         let mut segments = memory_segments
             .into_iter()
-            .map(|(k, v)| (Builtin::from_str(&k).unwrap(), v))
-            .collect::<Vec<_>>();
+            .map(|(k, v)| Ok((Builtin::from_str(&k)?, v)))
+            .collect::<Result<Vec<_>, io::Error>>()?;
         segments.sort_by_key(|(builtin, _)| Builtin::ordered().iter().position(|b| b == builtin));
-        segments.into_iter().map(|(_, segment)| segment).collect()
+        Ok(segments.into_iter().map(|(_, segment)| segment).collect())
     }
 }
 
